@@ -14,15 +14,17 @@ SOUND_BITS = '1111111110'
 
 
 def regen_gen():
-    """regenerate coq/Gen/{Opcodes,Judge,SubstFns,InstFn}.v from the CURRENT sources (fail closed)"""
+    """regenerate coq/Gen/{Opcodes,Judge,SubstFns,InstFn,Exec}.v from the CURRENT sources (fail closed)"""
     import sys
     sys.path.insert(0, os.path.join(C.VERIF, 'translators'))
     import opcodes
     import rust_judge
     import rust_subst
     import rust_inst
+    import rust_exec
     errs = []
-    for mod, fn in ((opcodes, 'Opcodes.v'), (rust_judge, 'Judge.v'), (rust_subst, 'SubstFns.v'), (rust_inst, 'InstFn.v')):
+    for mod, fn in ((opcodes, 'Opcodes.v'), (rust_judge, 'Judge.v'), (rust_subst, 'SubstFns.v'), (rust_inst, 'InstFn.v'),
+                    (rust_exec, 'Exec.v')):
         try:
             text = mod.generate(C.REPO)
             C.write_if_changed(os.path.join(C.COQ, 'Gen', fn), text)
